@@ -334,7 +334,7 @@ def _bytecode_instances(tier):
         else:
             out.append(dict(n=k + 3, fixed=pre + [None, None, 0xb0], ranges={str(k): [(0x80, 0x8f)]}))
         # 0xb2 + uleb128 operand of exactly m bytes (continuation bits fixed, the 7 payload bits of every byte symbolic)
-        for m in range(1, (4 if tier == 'quick' else 6)):
+        for m in (range(1, 7) if (tier == 'quick' and not pre) else (range(1, 4) if tier == 'quick' else range(1, 10))):
             mk = {str(k + 1 + j): [0x80, 0x80 if j < m - 1 else 0] for j in range(m)}
             out.append(dict(n=k + 1 + m + 1, fixed=pre + [0xb2] + [None] * m + [0xb0], masks=mk))
     if tier == 'thorough':
